@@ -110,10 +110,12 @@ def run(gaf_path, gfa=None, output=None, index=None, nodes=[], regions=[], forma
             nodes = get_unstable(regions, ind)
             if len(nodes) == 0:
                 raise CommandLineError("No alignments found for the given nodes/regions")
-        offsets = ind[ind_dict[nodes[0]]]
-        for nd in nodes[1:]:
-            # extracting all the lines that touches at least one of the nodes
-            offsets = list(set(offsets) | set(ind[ind_dict[nd]]))
+        offsets = []
+        for nd in nodes:
+            # extracting all the lines that touches at least one of the nodes, each line once.
+            # nodes without any alignment have no entry in the index and contribute nothing
+            if nd in ind_dict:
+                offsets = list(set(offsets) | set(ind[ind_dict[nd]]))
         offsets.sort()
         if len(offsets) == 0:
             raise CommandLineError("No alignments found for the given nodes/regions")
